@@ -21,20 +21,39 @@ Fixpoint find_row (name : string) (rows : list crow) : option crow :=
   | r :: q => if String.eqb (c_self_name r) name then Some r else find_row name q
   end.
 
-(* 401: [type index; value; is_some; roundtrip; MIN_VALUE; MAX_VALUE] *)
-Definition model_builtin (v : list Z) : list Z :=
+(* 401: [type index; value; is_some; roundtrip; MIN_VALUE; MAX_VALUE]; the type's name travels in the
+   case's byte field (ASCII), so that impls added to the crate are probed too *)
+Fixpoint string_of_codes (l : list N) : string :=
+  match l with
+  | [] => EmptyString
+  | c :: r => String (Ascii.ascii_of_N c) (string_of_codes r)
+  end.
+Definition builtin_name (a : acase) (v : list Z) : string :=
+  match a_ops a with
+  | [] => nth (Z.to_nat (nth 0 v 0)) builtin_names ""
+  | l => string_of_codes l
+  end.
+Definition model_builtin (a : acase) (v : list Z) : list Z :=
   let idx := nth 0 v 0 in let x := nth 1 v 0 in
-  match find_row (nth (Z.to_nat idx) builtin_names "") Tables.contiguous_rows_all with
+  match find_row (builtin_name a v) Tables.contiguous_rows_all with
   | Some r => [idx; x; zb (Tables.contiguous_in_range_all (c_min r) (c_max r) x); 1; c_min r; c_max r]
   | None => [idx; x; -1; -1; 0; 0]
   end.
-Definition mon_builtin (v : list Z) : bool :=
-  let idx := nth 0 v 0 in let x := nth 1 v 0 in
-  let name := nth (Z.to_nat idx) builtin_names "" in
-  match valid_interval name with
-  | Some (_, lo, hi) =>
-      (nthz 2 v =? zb (valid_value name x)) && (nthz 3 v =? 1) && (nthz 4 v =? lo) && (nthz 5 v =? hi)
-  | None => false
+(* the impl is right about the probed integer: from_integer is Some exactly when the integer is a valid value
+   of the type, the value lies inside [MIN_VALUE, MAX_VALUE] exactly then, the round trip is exact; for a
+   type whose valid values form an interval the two constants are its ends.  No verdict for a type this
+   reading of the language does not know (the proof leg then reports the row). *)
+Definition mon_builtin (a : acase) (v : list Z) : bool :=
+  let x := nth 1 v 0 in
+  let name := builtin_name a v in
+  match known_valid name x with
+  | Some ok =>
+      (nthz 2 v =? zb ok) && (nthz 3 v =? 1) && (Bool.eqb ((nthz 4 v <=? x) && (x <=? nthz 5 v)) ok) &&
+      match valid_interval name with
+      | Some (_, lo, hi) => (nthz 4 v =? lo) && (nthz 5 v =? hi)
+      | None => true
+      end
+  | None => true
   end.
 
 (* 402: a derived enum whose discriminants are exactly min..=max, and its hand-written twin that
@@ -49,14 +68,14 @@ Definition mon_derived (v : list Z) : bool :=
 
 Definition xmodel (a : acase) (v : list Z) : list Z :=
   match a_fn a with
-  | 401%N => model_builtin v
+  | 401%N => model_builtin a v
   | 402%N => model_derived v
   | _ => amodel a
   end.
 
 Definition xmonitors (a : acase) (v : list Z) : list (N * bool) :=
   match a_fn a with
-  | 401%N => [(17%N, mon_builtin v)]
+  | 401%N => [(17%N, mon_builtin a v); (4%N, mon_builtin a v)]
   | 402%N => [(17%N, mon_derived v)]
   | _ => amonitors a v
   end.
